@@ -24,6 +24,11 @@ CHECKS.update({
          "Every repaired identifier (each existing participant and three new ones) x every helper set t<=|H| of every (n,t) up to the bound through the three repair parts of each crate's wrappers; delta sums and the repaired share compared with independent Lagrange interpolation; the refusals; every blinding vector on GF(7)/GF(11).",
          "Blinding values on the real curves are seeded streams.", "DESIGN 4 C11"),
 })
+CHECKS.update({
+ "C10": ("model_checking", "explicit exploration of the refresh operation tree on the real code (every remaining set, both procedures, depth-bounded, no state merging) with invariants on every node",
+         "Nodes are groups holding real key material, edges are the real dealer and distributed refresh procedures for EVERY remaining set R (|R|>=t); every path to the depth bound is executed. On every node: key unchanged, every package re-linked (verifying share = G*share = public entry), every t-subset signs (independent verifier), every strict old/new mix and every set with a removed member fails, and the threshold-change / unknown-identifier / non-zero-constant refusals refuse in both procedures.",
+         "Refresh polynomials are seeded streams; a full threshold of OLD shares still signs (documented, not asserted to fail).", "DESIGN 4 C10"),
+})
 NOT_APPLICABLE = {}
 
 def main():
